@@ -327,6 +327,8 @@ def _container(kind, items):
         return (x for x in items)
     if kind == "dict_keys":
         return dict((x, 1) for x in items).keys()
+    if kind == "namespace":
+        return dendropy.TaxonNamespace(items)       # the same Taxon objects in another namespace
     raise ValueError(kind)
 
 
@@ -334,9 +336,6 @@ ONE_SHOT = ("iterator", "generator")
 
 
 def _sig(case, feature):
-    if case.get("container") in ONE_SHOT:
-        # one defect class (the argument is consumed by the first membership test)
-        return "%s|one-shot-iterable-argument" % case["api"]
     return "%s|%s" % (case["api"], feature)
 
 
@@ -352,13 +351,16 @@ def _report_difference(ctx, case, sn, got, want, want_other, keep, unrooted_leni
     """strict (or lenient unrooted) comparison + path lengths.  Returns True when equal."""
     ok = True
     if unrooted_lenient:
-        feat = classify_unrooted(got, want if not has_unifurcation(want) else suppress_all(want))
-        # encode_bipartitions suppresses unifurcations itself: a declined suppression is
-        # checked separately below
-        if feat is None and has_unifurcation(want) and not has_unifurcation(got):
+        # encode_bipartitions on an unrooted tree may move the seed (documented), so the
+        # comparison is modulo the seed position unless the trees are equal outright
+        if ref.canon(got) == ref.canon(want):
+            feat = None
+        elif has_unifurcation(want) and not has_unifurcation(got) and classify_unrooted(got, suppress_all(want)) is None:
             feat = "flag"
-        elif feat is None and has_unifurcation(got) != has_unifurcation(want):
-            feat = "unifurcations"
+        else:
+            feat = classify_unrooted(got, want)
+            if feat is None and has_unifurcation(got) != has_unifurcation(want):
+                feat = "unifurcations"
     else:
         feat = classify(got, want, want_other, modulo_unif=bool(case.get("unif")) and bool(case.get("suppress")))
     if feat == "flag":
@@ -723,7 +725,43 @@ def check_node_extract(case, ctx):
             break
 
 
+class _Probe(object):
+    """stand-in for Ctx that only records violations"""
+
+    def __init__(self):
+        self.got = []
+
+    def violation(self, signature, message, case):
+        self.got.append((signature, message))
+
+    def case(self, *a, **k):
+        pass
+
+    count = maximum = sample = case
+
+
 def check(case, ctx):
+    if case.get("container") in ONE_SHOT:
+        # An argument that can be iterated only once: if the call fails with it but
+        # succeeds with the same items in a list, that is one defect class of its own
+        # (the argument is consumed by the first membership test), reported per API.
+        p = _Probe()
+        _check(case, p)
+        if p.got:
+            q = _Probe()
+            _check(dict(case, container="list"), q)
+            if not q.got:
+                ctx.violation("%s|one-shot-iterable-argument" % case["api"],
+                              "with the %s passed as a one-shot %s: %s" % (
+                                  "labels" if case["api"].endswith("labels") else "taxa", case["container"], p.got[0][1]), case)
+            else:
+                for sig, msg in p.got:
+                    ctx.violation(sig, msg, case)
+        return
+    _check(case, ctx)
+
+
+def _check(case, ctx):
     k = case["kind"]
     if k == "inplace":
         check_inplace(case, ctx)
@@ -898,7 +936,7 @@ def run_itaxa(chunk, ctx):
     return None
 
 
-CONTAINERS = ["tuple", "set", "frozenset", "reversed_list", "dict_keys", "iterator", "generator"]
+CONTAINERS = ["tuple", "set", "frozenset", "reversed_list", "dict_keys", "namespace", "iterator", "generator"]
 
 
 def run_containers(chunk, ctx):
@@ -912,8 +950,12 @@ def run_containers(chunk, ctx):
         for keep in nonempty_subsets(labels):
             for kind in CONTAINERS:
                 for api in ("prune_taxa", "prune_taxa_with_labels", "retain_taxa", "retain_taxa_with_labels"):
+                    if kind == "namespace" and api.endswith("labels"):
+                        continue
                     _do(dict(base, kind="inplace", api=api, keep=list(keep), upd=False, container=kind), ctx, "container_calls", nt)
                 for api in WRAPPERS:
+                    if kind == "namespace" and api.endswith("labels"):
+                        continue
                     _do(dict(base, kind="extract", api=api, keep=list(keep), container=kind), ctx, "container_calls", nt)
     return None
 
